@@ -156,7 +156,7 @@ func parseIndexSection(sectionContents []byte, sectionsStart uint64, sos []secti
 	}
 	respSectionOffset := sectionsStart + respSectionRelOffset
 	makeRelativeToStream := func(offset, length uint64) (uint64, uint64, error) {
-		if offset+length > respso.Length {
+		if offset+length < offset || offset+length > respso.Length {
 			return 0, 0, errors.New("bundle.index: response length out-of-range")
 		}
 		return respSectionOffset + offset, length, nil
@@ -217,7 +217,7 @@ func parseIndexSectionWithVariants(sectionContents []byte, sectionsStart uint64,
 	}
 	respSectionOffset := sectionsStart + respSectionRelOffset
 	makeRelativeToStream := func(offset, length uint64) (uint64, uint64, error) {
-		if offset+length > respso.Length {
+		if offset+length < offset || offset+length > respso.Length {
 			return 0, 0, errors.New("bundle.index: response length out-of-range")
 		}
 		return respSectionOffset + offset, length, nil
